@@ -16,6 +16,7 @@ MCInit == Init("g1", "l1", O0) /\ steps = 0 /\ built = FALSE
 MCNext ==
   /\ steps < Depth /\ steps' = steps + 1
   /\ \/ (\E v \in DOMAIN GInfo : EditGrammar(v)) /\ built' = FALSE
+     \/ (\E v \in DOMAIN GInfo : EditGrammarSameTick(v)) /\ built' = FALSE
      \/ (\E v \in DOMAIN LInfo : EditLexer(v)) /\ built' = FALSE
      \/ (\E k \in {"eoc", "wae", "lex_wae"} : \E x \in {TRUE, FALSE} : SetOpt(k, x)) /\ built' = FALSE
      \/ (\E x \in {0, 1} : SetOpt("vis", x)) /\ built' = FALSE
